@@ -131,3 +131,75 @@ def mm(A, B):
 
 def mmT(A, B):
     return np.einsum("ik...,jk...->ij...", A, B)
+
+
+# ------------------------------------------------------------------------------------------------ ride-along (in situ)
+OBJECTIVE_CLASSES = ("NeoHooke", "NeoHookeCompressible", "Volumetric", "OgdenRoxburgh", "Hyperelastic", "LinearElasticLargeStrain")
+
+
+def attach_insitu(run, every=10, npoints=4, seed=0):
+    """Ride-along: at every k-th SolidBody._hessian call, a few quadrature points of the state a real simulation reached
+    are checked in situ: hessian vs central differences of gradient (fixed state variables), objectivity, tau symmetry."""
+    import felupe as fem
+    from .. import attach
+    rng = np.random.default_rng(seed)
+    calls = {"n": 0}
+
+    def post(self, args, kwargs, ctx, result, exc):
+        if exc is not None:
+            return
+        calls["n"] += 1
+        run.seen("material.insitu")
+        if calls["n"] % every != 1 and every > 1:
+            return
+        kin = self.results.kinematics
+        if kin is None or len(kin) != 1:
+            run.skip("material.insitu", "mixed-field kinematics")
+            return
+        F = np.asarray(kin[0])
+        if F.ndim != 4 or F.shape[:2] != (3, 3):
+            run.skip("material.insitu", "not a 3x3 deformation gradient")
+            return
+        sv = self.results.statevars
+        q = rng.integers(0, F.shape[2], npoints)
+        c = rng.integers(0, F.shape[3], npoints)
+        Fs = np.ascontiguousarray(F[:, :, q, c]).reshape(3, 3, 1, npoints)
+        svs = None
+        if isinstance(sv, np.ndarray) and sv.ndim == 3:
+            svs = np.ascontiguousarray(sv[:, q, c]).reshape(sv.shape[0], 1, npoints)
+        J = np.linalg.det(np.moveaxis(Fs, (0, 1), (-2, -1)))
+        if not np.all(np.isfinite(Fs)) or J.min() < 0.2:
+            run.skip("material.insitu", "det F < 0.2 or non-finite state")
+            return
+        um = self.umat
+        name = type(um).__name__
+        if hasattr(um, "fun") and callable(getattr(um, "fun", None)):
+            name += "(" + getattr(um.fun, "__name__", type(um.fun).__name__) + ")"
+        try:
+            A = np.broadcast_to(np.asarray(um.hessian([Fs, svs])[0], float), (3, 3, 3, 3, 1, npoints))
+            sA = max(maxabs(A), 1e-300)
+            # kink test first: one-sided differences of the stress must agree (yield surface, history switch)
+            g = lambda G: np.asarray(um.gradient([G, svs])[0], float)
+            h = H2
+            d = rng.standard_normal(Fs.shape)
+            d /= maxabs(d)
+            g0, gp, gm = g(Fs), g(Fs + h * d), g(Fs - h * d)
+            one_sided = maxabs((gp - g0) / h - (g0 - gm) / h) / sA
+            if one_sided > 50 * h:
+                run.skip("material.insitu", "non-smooth point (one-sided differences disagree)")
+                return
+            judge_fd(run, "material.insitu", "model=%s clause=insitu-hessian-is-derivative-of-gradient" % name,
+                     "%s (in situ): elasticity differs from the differentiated stress at a state reached by a simulation" % name,
+                     A, lambda hh: fd_wrt_F(g, Fs, hh), sA, "insitu:hessian", config="insitu " + name)
+            if name.split("(")[0] in OBJECTIVE_CLASSES:
+                Q = rotations(rng, (1, npoints))
+                Pq = np.asarray(um.gradient([mm(Q, Fs), svs])[0], float)
+                run.compare("material.insitu", "model=%s clause=insitu-objectivity" % name, maxabs(Pq - mm(Q, g0)) / sA, 1e-7,
+                            "%s (in situ): P(QF) != Q P(F)" % name, unit="insitu:objectivity", config="insitu objectivity " + name)
+                tau = mmT(g0, Fs)
+                run.compare("material.insitu", "model=%s clause=insitu-kirchhoff-symmetric" % name, maxabs(tau - np.swapaxes(tau, 0, 1)) / sA, 1e-7,
+                            "%s (in situ): P F^T not symmetric" % name, unit="insitu:tau")
+        except Exception as e:
+            run.skip("material.insitu", "material could not be re-evaluated on a sub-batch: " + type(e).__name__)
+
+    attach.wrap_method(fem.SolidBody, "_hessian", post=post)
